@@ -215,6 +215,19 @@ PROPS["C13"] = dict(
 )
 
 
+# --------------------------------------------------------------------------- C31
+PROPS["C31"] = dict(
+    functions=["revm::Evm::{transact, transact_preverified, preverify_transaction} and the error-hook closures they pass to Result::inspect_err (crates/revm/src/evm.rs)"],
+    bounds="every entry->return path of the three (acyclic) MIR control-flow graphs and of each inspect_err closure; the Err edge of a `?` that follows an inspect_err "
+           "arrives `cleared` only if that closure clears on every one of its paths",
+    outside="that post_execution().clear / JournaledState::clear / finalize actually reset every field (transient storage, warm set, logs, depth: hash maps, DESIGN §2); "
+            "loaded precompiles and spec changes between transactions; equality of result sequences with a fresh EVM (whole-transaction histories); transact_commit and "
+            "the inspector entry points",
+    assumptions=["context-touching calls are: validation env / initial_tx_gas / tx_against_state, preverify_transaction_inner, transact_preverified_inner, post_execution().end",
+                 "z3 4.8.12 and cvc5 1.0 agree; a sat path is replayed by a rejected transaction on a real Evm (native tool: journal must be empty afterwards)"],
+    jobs=[dict(name="e3::clear_on_every_exit", fn=jobs_e3.run_clear_on_exit)],
+)
+
 # --------------------------------------------------------------------------- C32
 import jobs_c32
 PROPS["C32"] = dict(
@@ -376,6 +389,13 @@ CLAIMS = {
              "Trusted: Kani/CBMC/CaDiCaL, the EIP transcription in the harness.",
         technique="Kani/CBMC bounded model checking of the real gas functions against EIP reference formulas (full 64/256-bit domains, symbolic SpecId)",
         design_ref="DESIGN.md §5 C14"),
+    "C31": dict(
+        text="The three public entry points that run or pre-verify a transaction are searched over all control-flow paths (z3 and cvc5) for an exit - normal or through `?` - "
+             "whose last context-touching call is not followed by Evm::clear(); error hooks passed to inspect_err are analysed the same way (they must clear on every "
+             "path). A model is replayed with a transaction that fails the sender-state check on a real Evm.",
+        note="Partial: decides that the reset is *invoked* on every exit, not what it resets nor the equivalence with a fresh EVM.",
+        technique="SMT path search (z3+cvc5) over the MIR control-flow graphs of the Evm entry points and their error-hook closures; native replay",
+        engine="smt-mir", design_ref="DESIGN.md §5 C31"),
     "C32": dict(
         text="calc_excess_blob_gas is decided for all u64 triples by CBMC. fake_exponential is translated from the nightly MIR dump into SMT-LIB "
              "(integers with explicit u128 overflow flags) and an inductive per-iteration certificate is discharged by z3 and cvc5: for every "
@@ -387,7 +407,7 @@ CLAIMS = {
         engine="kani-cbmc + smt-mir",
         design_ref="DESIGN.md §5 C32"),
 }
-SMT_SERVES = {"C32", "C07", "C22", "C20", "C21", "C05", "C10", "C09", "C08"}
+SMT_SERVES = {"C32", "C07", "C22", "C20", "C21", "C05", "C10", "C09", "C08", "C31"}
 
 # --------------------------------------------------------------------------- not applicable (reason shown in MANIFEST.json)
 NOT_APPLICABLE = {
